@@ -1,7 +1,7 @@
 ID = 'C11'
 # 'net': fast encoding (see props/C08/spec.py): -fno-inline, std::string::_M_create cut to a reported bound failure (strings <= 15 bytes),
 # deterministic pool allocator, --ptrdiff/--flat-unions
-UNITS = {'net': dict(wrap='wrap_net.cc', new_block=64, cxxflags=['-fno-inline'], cuts=['basic_stringIcSt11char_traitsIcESaIcEE9_M_createERmm$'], extra_c=['sso_bound.c'],
+UNITS = {'net': dict(wrap='wrap_net.cc', new_block=64, cxxflags=['-fno-inline'], cuts=['basic_stringIcSt11char_traitsIcESaIcEE9_M_createERmm$', '^_ZNSt7__cxx119to_stringEi$'], extra_c=['sso_bound.c'],
                      ir2c_flags=['--ptrdiff', '--flat-unions'], gen_defs=['VERIF_NEW_POOL=8']),
          'enc': dict(wrap='wrap.cc', new_block=64, per_harness={'h_b64dec.c': {'new_block': 320}, 'h_b64enc.c': {'new_block': 320}})}
 BOUNDS = 'base64_decode: every input of length 0..8 over all 256 byte values, both alphabets'
